@@ -355,6 +355,8 @@ pub enum Aim {
     ListenerAfterDestroy,
     /// channel programs with capacities 1..4 on bounded transports <= 2
     SmallCredit,
+    /// channel-heavy programs, every capacity and transport (C05's client-level half)
+    Channels,
 }
 
 pub fn decode_program(tape: &[u8], allow: Allow, aim: Aim, max_ops: usize) -> Program {
@@ -598,6 +600,7 @@ impl Gen<'_, '_> {
             Aim::ListenerAfterDestroy => (false, b % 4 == 0, false, false, false),
             Aim::Claims => (false, false, b % 6 == 0, b % 6 == 1, false),
             Aim::SmallCredit => (false, false, false, b % 32 == 4, b % 2 == 0),
+            Aim::Channels => (false, false, b % 16 == 1, b % 16 == 3, b % 4 != 1 && b % 4 != 3),
         };
         if la && self.allow.late_abort {
             return self.frag_late_abort();
